@@ -627,6 +627,40 @@ func buildC14(tier string) *core.Plan {
 	spaces = append(spaces, core.Space{Name: "decode-inverts-encode", N: nv * nf,
 		Desc: func(i int64) any { return map[string]any{"value": vals[i/nf], "format": formats[i%nf]} },
 		Run:  func(c *core.Ctx, i int64) { c14RoundTrip(c, vals[i/nf], formats[i%nf]) }})
+	// infinite floats: representable in YAML (.inf) and TOML (inf), not in JSON
+	infs := []any{math.Inf(1), math.Inf(-1), map[string]any{"v": math.Inf(1), "w": 1.5}, []any{math.Inf(-1), 0}}
+	infFormats := []string{"yaml", "yml", "toml"}
+	spaces = append(spaces, core.Space{Name: "decode-inverts-encode-infinite-floats", N: int64(len(infs) * len(infFormats)),
+		Desc: func(i int64) any { return map[string]any{"value": fmt.Sprint(infs[i/3]), "format": infFormats[i%3]} },
+		Run: func(c *core.Ctx, i int64) {
+			v, format := infs[i/3], infFormats[i%3]
+			if _, isMap := v.(map[string]any); format == "toml" && !isMap {
+				return
+			}
+			c.Eval()
+			c.Trans(4)
+			wit := fmt.Sprintf("decode(encode(%v)) as %s", v, format)
+			enc, err := evalTree(map[string]any{"r": map[string]any{"$encode": format, "$value": core.Clone(v)}})
+			if err != nil || len(enc) != 1 {
+				c.Fail("decode-inverts-encode", "encode-failed", wit, errStr(err))
+				return
+			}
+			text, _ := enc[0].(map[string]any)["r"].(string)
+			dec, err := evalTree(map[string]any{"r": map[string]any{"$decode": format, "$value": text}})
+			c.Validated()
+			c.Nontrivial()
+			if err != nil {
+				c.Outcome("DECODE-FAILS")
+				c.Fail("decode-inverts-encode", "decode-failed", wit, map[string]any{"text": text, "error": errStr(err)})
+				return
+			}
+			if len(dec) != 1 || fmt.Sprint(dec[0]) != fmt.Sprint(map[string]any{"r": v}) {
+				c.Outcome("ROUND-TRIP-DIFFERS")
+				c.Fail("decode-inverts-encode", "round-trip-differs", wit, map[string]any{"text": text, "got": fmt.Sprint(dec)})
+				return
+			}
+			c.Outcome("round-trip-ok")
+		}})
 	// malformed decode arguments
 	badDecode := []any{
 		map[string]any{"$decode": "bogus", "$value": "{}"},
